@@ -31,9 +31,12 @@ impl<'js> IntoJs<'js> for ActValue {
             serde_json::Value::Null => JsValue::new_null(ctx.clone()),
             serde_json::Value::Bool(v) => JsValue::new_bool(ctx.clone(), v),
             serde_json::Value::Number(v) => {
-                if v.is_i64() {
-                    let v = v.as_i64().unwrap_or_default() as i32;
+                if let Some(v) = v.as_i64().and_then(|v| i32::try_from(v).ok()) {
                     JsValue::new_int(ctx.clone(), v)
+                } else if v.is_i64() || v.is_u64() {
+                    // integers out of the i32 range are kept as js numbers
+                    let v = v.as_f64().unwrap_or_default();
+                    JsValue::new_float(ctx.clone(), v)
                 } else if v.is_f64() {
                     let v = v.as_f64().unwrap_or_default();
                     JsValue::new_float(ctx.clone(), v)
